@@ -1002,7 +1002,7 @@ func (s *v4Server) handleRequest(req, resp *dhcpv4.DHCPv4) (lease *dhcpsvc.Lease
 
 // handleDecline is the handler for the DHCP Decline request.
 func (s *v4Server) handleDecline(req, resp *dhcpv4.DHCPv4) (err error) {
-	s.conf.notify(LeaseChangedDBStore)
+	defer s.conf.notify(LeaseChangedDBStore)
 
 	s.leasesLock.Lock()
 	defer s.leasesLock.Unlock()
@@ -1037,12 +1037,16 @@ func (s *v4Server) handleDecline(req, resp *dhcpv4.DHCPv4) (err error) {
 		return nil
 	}
 
+	// The new lease has already been added to the lease list and indexes by
+	// allocateLease, so only move the hostname to it.
+	if newLease.Hostname != "" {
+		delete(s.hostsIndex, newLease.Hostname)
+	}
+
 	newLease.Hostname = oldLease.Hostname
 	newLease.Expiry = time.Now().Add(s.conf.leaseTime)
-
-	err = s.addLease(newLease)
-	if err != nil {
-		return fmt.Errorf("adding new lease for %s: %w", mac, err)
+	if newLease.Hostname != "" {
+		s.hostsIndex[newLease.Hostname] = newLease
 	}
 
 	log.Info("dhcpv4: changed IP from %s to %s for %s", reqIP, newLease.IP, mac)
